@@ -1247,6 +1247,20 @@ func runC05(a runArgs) error {
 		return e.Flush(a.out)
 	}
 
+	// canonical witnesses of the concurrent-store families (see the end of this function; no random draws, and put
+	// first so that the case reported for a violation of the lock discipline is a deterministic one)
+	for _, mode := range []string{"w", "a"} {
+		for _, typ := range []int{0, 1} {
+			for _, beh := range []string{"resp", "none", "msg", "rst"} {
+				r := c05Ev{Kind: "req", Typ: typ, MID: 0x4321, Tok: []byte{0xa, 0xb, 0xc}, Code: 1, Beh: beh, RCode: 69, PLen: 5, PSalt: 9, MTok: []byte{0xcc}}
+				if beh == "rst" || beh == "none" {
+					r.RCode, r.PLen, r.PSalt = 0, 0, 0
+				}
+				emitConcM([]c05Ev{r}, []int{2}, 0x1000, false, mode)
+				emitConcM([]c05Ev{r}, []int{3}, 0x1000, false, mode)
+			}
+		}
+	}
 	// structured histories: the original event set, and the extended one
 	n, nx := 300, 420
 	if a.tier == "thorough" {
@@ -1455,16 +1469,6 @@ func runC05(a runArgs) error {
 				ev.Code = c05MethodCodes[c%9]
 			}
 			emitConcM([]c05Ev{ev}, []int{2 + rng.Intn(3)}, getMID, c >= nstore, mode)
-		}
-		for _, typ := range []int{0, 1} {
-			for _, beh := range []string{"none", "resp", "msg", "rst"} {
-				r := c05Ev{Kind: "req", Typ: typ, MID: 0x4321, Tok: []byte{0xa, 0xb, 0xc}, Code: 1, Beh: beh, RCode: 69, PLen: 5, PSalt: 9, MTok: []byte{0xcc}}
-				if beh == "rst" || beh == "none" {
-					r.RCode, r.PLen, r.PSalt = 0, 0, 0
-				}
-				emitConcM([]c05Ev{r}, []int{2}, 0x1000, false, mode)
-				emitConcM([]c05Ev{r}, []int{3}, 0x1000, false, mode)
-			}
 		}
 	}
 	return e.Flush(a.out)
